@@ -206,6 +206,38 @@ def run_vectors(res, spath, tag, layer=WORKER):
     return out
 
 
+def run_random(res, profile, count):
+    """Seeded random scenarios (reference peer behind a faulty network) at the real modulus, far
+    outside the exhaustive bounds; recorded from the real Worker, judged by Trace_Transfer."""
+    C.build_harness(("wsim", "pure"))
+    tag = "random-%s-%d-seed%d" % (profile, count, C.seed())
+    key = C.sha(C.repo_hash(), C.tree_hash(C.HARNESS, (".rs", ".toml")), C.spec_hash(), tag)[:20]
+    mpath = os.path.join(C.WORK, "memo", key + ".json")
+    if os.path.exists(mpath) and not os.environ.get("VERIF_NO_MEMO"):
+        out = json.load(open(mpath))
+    else:
+        tdir = os.path.join(C.WORK, "traces")
+        os.makedirs(tdir, exist_ok=True)
+        tpath = os.path.join(tdir, "%s-%d.trace.ndjson" % (tag, os.getpid()))
+        with open(os.path.join(tdir, "wsim-%s.log" % tag), "w") as lf:
+            r = C.run([C.harness_bin("wsim"), "random", tpath, "--seed", str(C.seed()), "--count", str(count),
+                       "--profile", profile, "--jobs", "16", "--workdir", os.path.join(C.WORK, "sim")],
+                      cwd=C.HARNESS, stdout=lf, stderr=lf, timeout=3600)
+        if r.returncode != 0 or not os.path.exists(tpath):
+            raise C.ToolError("wsim random failed (%s)" % r.returncode)
+        devs, nev, _ = judge(tpath)
+        out = {"family": tag, "scripts": count, "events": nev, "deviations": len(devs),
+               "records": deviation_records(devs, tpath, None, tag)}
+        os.remove(tpath)
+        C.write_json(mpath, out)
+    res.scripts += out["scripts"]
+    res.traces += out["scripts"]
+    res.events += out["events"]
+    res.legs.append({k: v for k, v in out.items() if k != "records"})
+    file_records(res, out["records"])
+    return out
+
+
 def run_family(res, cfgname, select=None, tag=None, layer=WORKER):
     out = family_result(cfgname, select, tag, layer)
     res.states += out["tlc_states"]
